@@ -62,3 +62,24 @@ def run(ck):
         if len(c) > 1 or c[0] in G.edges.get(c[0], ()):
             rec |= set(c)
     ck.ob('C18.rec', 'C18.rec', not rec, dm.loc(), 'no recursion among the %d functions reachable from decode_manifest' % len(reach))
+
+    # comparators handed to std::sort and friends must be strict (irreflexive): `<=` / `>=` is undefined behaviour inside the sort
+    SORTS = ('std::sort', 'std::stable_sort', 'std::partial_sort', 'std::nth_element', 'std::make_heap', 'std::sort_heap', 'std::lower_bound', 'std::upper_bound')
+    from sa.match import comparison as _cmp
+    nsort = 0
+    for f in [x for x in P.fns if x.file.endswith('Manifest.cpp')]:
+        for i in f.walk():
+            if (f.nodes[i].get('callee') or '') in SORTS:
+                nsort += 1
+                for j in f.walk(i):
+                    if f.nodes[j]['k'] == 'LambdaExpr' and f.nodes[j].get('fn'):
+                        for g in P.by_q.get(f.nodes[j]['fn'], []):
+                            bad_ = []
+                            for r in [x for x in g.walk() if g.nodes[x]['k'] == 'ReturnStmt' and g.kids(x)]:
+                                c_ = _cmp(g, g.kids(r)[0])
+                                if c_ and c_[0] in ('<=', '>='):
+                                    bad_.append(r)
+                            ck.ob('C18.ub', 'C18.ub/strict-comparator/%s#%d' % (short(f.q).split('::')[-1], nsort), not bad_, g.loc(bad_[0]) if bad_ else g.loc(),
+                                  'the comparator handed to %s in %s is a strict ordering (`<` / `>`): a reflexive `<=` lets the sort run off the range'
+                                  % (f.nodes[i]['callee'], short(f.q)))
+    ck.extra['sort_calls_in_manifest_codec'] = nsort
